@@ -6,6 +6,7 @@ package zzverif
 import (
 	"fmt"
 	"math/big"
+	"strconv"
 	"strings"
 	"testing"
 
@@ -18,59 +19,12 @@ type c09Case struct {
 	Op     string `json:"op"`     // + -
 	Amount string `json:"amount"` // decimal text, may be negative
 	Unit   string `json:"unit"`
-	UCUM   bool   `json:"ucum"`             // unit written as a quoted string
-	Unit2  string `json:"unit2,omitempty"`  // qty cases: second operand
+	UCUM   bool   `json:"ucum"`            // unit written as a quoted string
+	Unit2  string `json:"unit2,omitempty"` // qty cases: second operand
 	Amt2   string `json:"amt2,omitempty"`
 }
 
 // --- civil calendar (Howard Hinnant's algorithms) ---------------------------
-
-func daysFromCivil(y, m, d int64) int64 {
-	if m <= 2 {
-		y--
-	}
-	era := y / 400
-	if y < 0 && y%400 != 0 {
-		era = (y - 399) / 400
-	}
-	yoe := y - era*400
-	mp := (m + 9) % 12
-	doy := (153*mp+2)/5 + d - 1
-	doe := yoe*365 + yoe/4 - yoe/100 + doy
-	return era*146097 + doe - 719468
-}
-
-func civilFromDays(z int64) (y, m, d int64) {
-	z += 719468
-	era := z / 146097
-	if z < 0 && z%146097 != 0 {
-		era = (z - 146096) / 146097
-	}
-	doe := z - era*146097
-	yoe := (doe - doe/1460 + doe/36524 - doe/146096) / 365
-	y = yoe + era*400
-	doy := doe - (365*yoe + yoe/4 - yoe/100)
-	mp := (5*doy + 2) / 153
-	d = doy - (153*mp+2)/5 + 1
-	m = mp + 3
-	if m > 12 {
-		m -= 12
-	}
-	if m <= 2 {
-		y++
-	}
-	return
-}
-
-func isLeap(y int64) bool { return y%4 == 0 && (y%100 != 0 || y%400 == 0) }
-
-func daysInMonth(y, m int64) int64 {
-	d := []int64{31, 28, 31, 30, 31, 30, 31, 31, 30, 31, 30, 31}[m-1]
-	if m == 2 && isLeap(y) {
-		d = 29
-	}
-	return d
-}
 
 // --- the model -----------------------------------------------------------------
 
@@ -330,43 +284,6 @@ func c09Model(c c09Case) c09Result {
 
 var c09Amounts = []string{"0", "1", "2", "11", "12", "13", "23", "24", "25", "29", "30", "31", "59", "60", "61", "364", "365", "366", "1000", "1.5", "0.999", "2.25", "3600", "86400", "100000"}
 
-func c09GenStart(s Src) (kind, text string) {
-	// a day of the leap cycle 2019-03-01 … 2023-02-28, biased to month ends, or an edge
-	var y, m, d int64
-	switch s.Intn(10) {
-	case 0:
-		y, m, d = pickOne(s, []int64{1, 9999}), pickOne(s, []int64{1, 12}), pickOne(s, []int64{1, 31})
-	case 1, 2, 3:
-		y, m = int64(s.Range(2019, 2023)), int64(s.Range(1, 12))
-		d = daysInMonth(y, m) - int64(s.Intn(2))
-	case 4:
-		y, m, d = pickOne(s, []int64{2020, 2024, 2000, 1900}), 2, 29
-		if !isLeap(y) {
-			d = 28
-		}
-	default:
-		y, m, d = civilFromDays(daysFromCivil(2019, 3, 1) + int64(s.Intn(1461)))
-	}
-	date := []string{fmt.Sprintf("%04d", y), fmt.Sprintf("%04d-%02d", y, m), fmt.Sprintf("%04d-%02d-%02d", y, m, d)}
-	hh, mm, ss := s.Intn(24), s.Intn(60), s.Intn(60)
-	if s.Prob(25) {
-		hh, mm, ss = pickOne(s, []int{0, 23}), pickOne(s, []int{0, 59, 30}), pickOne(s, []int{0, 59})
-	}
-	times := []string{fmt.Sprintf("%02d", hh), fmt.Sprintf("%02d:%02d", hh, mm), fmt.Sprintf("%02d:%02d:%02d", hh, mm, ss), fmt.Sprintf("%02d:%02d:%02d.%03d", hh, mm, ss, pickOne(s, []int{0, 1, 500, 999}))}
-	switch s.Intn(3) {
-	case 0:
-		return "Date", date[s.Intn(3)]
-	case 1:
-		p := s.Intn(7)
-		if p < 3 {
-			return "DateTime", date[p] + "T"
-		}
-		off := pickOne(s, []string{"", "Z", "+05:30", "-11:00"})
-		return "DateTime", date[2] + "T" + times[p-3] + off
-	}
-	return "Time", times[s.Intn(4)]
-}
-
 func c09Gen(s Src) c09Case {
 	if s.Prob(8) {
 		us := []string{"mg", "kg", "day", "days", "year", "1", "s", "second"}
@@ -385,8 +302,29 @@ func c09Gen(s Src) c09Case {
 	default:
 		c.Unit = pickOne(s, c09Keywords)
 	}
+	// a third of the amounts sit on a conversion boundary: k coarser units expressed in
+	// the drawn unit, ±1 (365 days, 8759 hours, 31536000000 milliseconds, 53 weeks …)
+	if sz, ok := c09UnitMillis[strings.TrimSuffix(c.Unit, "s")]; ok && !c.UCUM && s.Prob(33) {
+		var coarser []int64
+		for _, t := range []int64{c09UnitMillis["year"], c09UnitMillis["month"], c09UnitMillis["week"], c09UnitMillis["day"], c09UnitMillis["hour"], c09UnitMillis["minute"], c09UnitMillis["second"]} {
+			if t > sz {
+				coarser = append(coarser, t)
+			}
+		}
+		if len(coarser) > 0 {
+			t := pickOne(s, coarser)
+			k := pickOne(s, []int64{1, 1, 2, 3, 10})
+			n := (k*t+sz-1)/sz + int64(s.Range(-1, 1))
+			c.Amount = strconv.FormatInt(n, 10)
+			if s.Prob(15) {
+				c.Amount = "-" + c.Amount
+			}
+		}
+	}
 	return c
 }
+
+var c09UnitMillis = map[string]int64{"year": 365 * 86400000, "month": 30 * 86400000, "week": 7 * 86400000, "day": 86400000, "hour": 3600000, "minute": 60000, "second": 1000, "millisecond": 1}
 
 func c09Enum(yield func(c09Case)) {
 	// month ends of the leap cycle × every keyword × a few amounts × all precisions
@@ -700,7 +638,7 @@ func c09RunRel(ctx *Ctx, c c09RelCase) {
 
 func TestC09(t *testing.T) {
 	r := newRec("C09",
-		"cases are (start value, + or -, amount, unit): starts = days of the leap cycle 2019-03-01..2023-02-28 (biased to month ends and Feb 29) and the 0001/9999 edges × every Date (3) / DateTime (year..millisecond) / Time (hour..millisecond) precision × offsets {none, Z, +05:30, -11:00}; units = every calendar keyword singular and plural, quoted UCUM-style units and non-temporal units; amounts from {0,1,2,11,12,13,23,24,25,29,30,31,59,60,61,364,365,366,1000,1.5,0.999,…} and their negatives; an exhaustive stage walks every month end of the cycle × all keywords × precisions; relation cases check monotonicity and (x+q)-q=x; quantity cases check + - < = > within and across units.  non-trivial = amount ≠ 0 and (month-end start, unit finer than the precision, partial precision, clamping/truncation in the model, or a Time); distinct = FNV-64 of the source",
+		"cases are (start value, + or -, amount, unit): starts = days of the leap cycle 2019-03-01..2023-02-28 (biased to month ends and Feb 29) and the 0001/9999 edges × every Date (3) / DateTime (year..millisecond) / Time (hour..millisecond) precision × offsets {none, Z, +05:30, -11:00}; units = every calendar keyword singular and plural, quoted UCUM-style units and non-temporal units; amounts from {0,1,2,11,12,13,23,24,25,29,30,31,59,60,61,364,365,366,1000,1.5,0.999,…} and their negatives, a third of them on a conversion boundary (k coarser units expressed in the drawn unit, ±1: 365 days, 8759 hours, 31536000000 milliseconds, 53 weeks); an exhaustive stage walks every month end of the cycle × all keywords × precisions; relation cases check monotonicity and (x+q)-q=x; quantity cases check + - < = > within and across units.  non-trivial = amount ≠ 0 and (month-end start, unit finer than the precision, partial precision, clamping/truncation in the model, or a Time); distinct = FNV-64 of the source",
 		"M-CAL: proleptic Gregorian day numbers, months clamp to the month end, 1 week = 7 days, a unit finer than the precision is converted first (12 months or 365 days per year, 30 days per month, 24 h, 60 min, 60 s; fractions dropped), amounts above seconds truncate toward zero, seconds keep milliseconds, Time wraps modulo 24 h", "accepted alternatives: quoted/UCUM time units and week/day applied to a Time may be an error or the model value; results outside 0001..9999 may be anything but a panic")
 	runProperty(t, r,
 		Stage[c09Case]{Name: "month-ends", Enum: c09Enum, Run: c09Run},
